@@ -3,7 +3,10 @@
 NOTES = ("Static analysis only: every verdict is computed from the source text of /repo/src/urllib3 "
          "(and, where stated, the running interpreter's http/client.py). Nothing in a check imports or runs urllib3. "
          "Exit 0 holds / 1 VIOLATION / 2 ANALYSIS-ERROR (anchor vanished or idiom not recognised; never reported as a violation). "
-         "Known findings are listed in /verif/known_findings.json.")
+         "Known findings are listed in /verif/known_findings.json. "
+         "Rules are stated over values and paths (effect rows with Herbrand terms, recorded decisions, value identity), with private helpers "
+         "interpreted in place and call spellings canonicalised; 240 independently written behaviour-preserving patches are kept as "
+         "must-stay-silent variants and independently seeded breaking changes as must-fire variants (python -m sa.selftest).")
 
 _TRUST = ("Trusted base: CPython's ast module and the checker code under /verif/sa; CPython, queue, threading, OpenSSL and "
           "http.client behave as documented (A1); extension points at their defaults (A4); no run-time monkey-patching (A5). ")
@@ -34,7 +37,7 @@ CLAIMS = {
                  "scheduler is a queue.Queue subclass, takes block iff self.block, puts never block. "
                  "Declined: fairness/eventual completion under all schedules (queue.LifoQueue is trusted), real-time bounds."),
         "note": _TRUST + "Linearizability of the queue itself is the stdlib's; the check shows nothing else is shared. F1b is a known finding; F2 was repaired.",
-        "technique": "static analysis: lease typestate by abstract interpretation + write-set/escape/lockset queries over the AST",
+        "technique": "static analysis: lease typestate by abstract interpretation + write-set/escape/lockset queries over the AST; swap-then-drain and blocking mode of queue operations on effect rows",
     },
     "C03": {
         "text": ("Decides the structure that keeps exchanges apart on pooled connections: every connection taken from the queue is probed "
@@ -143,7 +146,7 @@ CLAIMS = {
                  "lower-case tchar anchored with \\Z, value pattern rejects NUL/CR/LF anywhere and edge SP/HTAB, both before the append. "
                  "Declined: byte-level equality of the written request."),
         "note": _TRUST + "http.client's own validators are trusted as read from its source on every run. F9 was repaired.",
-        "technique": "static analysis: regex structure analysis of folded patterns, constant folding of character sets, sanitizer-on-every-flow provenance, who-writes-to-socket query",
+        "technique": "static analysis: regex structure analysis of folded patterns, constant folding of character sets, sanitizer-on-every-flow provenance on effect rows (checked term is the emitted term), who-writes-to-socket query",
     },
     "C11": {
         "text": ("Decides framing choice and resend threading structurally: the complete framing decision table of "
